@@ -1,4 +1,6 @@
 """C14 -- property trees survive YAML export and import unchanged."""
+import os
+
 import vlib
 from families import propyaml
 
@@ -15,6 +17,11 @@ def body(c):
     issues, stats = propyaml.run(c, exe, c.tier, c.seed)
     for it in issues:
         c.issue(it)
+        if c.prop not in it.props and os.environ.get("VERIF_SHOW_ALL"):
+            # diagnostic only: issues this run observed that bear on other
+            # properties (their own checks report them)
+            print("NOTE other-property issue %s: %s" % (sorted(it.props),
+                                                        it.signature))
     c.add_part("propyaml_traces", stats)
     c.cov["traces_validated_against_impl"] = stats["episodes"]
     c.cov["evaluations"] = stats["episodes"]
